@@ -39,7 +39,7 @@ rm -f "$F" "$D"; mkfifo "$F" || exit 97
 ( while [ ! -e "$D" ]; do cat "$F" >> "$C12_SCRATCH/console.log"; done ) &
 R=$!
 mount --bind "$F" /dev/console || exit 97
-"$@"; rc=$?
+if [ -n "$C12_DROP_CHOWN" ]; then setpriv --bounding-set=-chown --inh-caps=-chown "$@"; else "$@"; fi; rc=$?
 touch "$D"; : > "$F"; wait $R
 umount /dev/console 2>/dev/null; rm -f "$F" "$D"
 exit $rc"""
@@ -172,18 +172,18 @@ def segments(hist):
 # ------------------------------------------------------------------------------------------
 # running one history on the real code
 # ------------------------------------------------------------------------------------------
-def run_history(ctx, binary, hist, keys, idx, strace=False, variant=0, predir=False):
+def run_history(ctx, binary, hist, keys, idx, strace=False, variant=0, predir=False, chown_fails=False):
     """run (all segments of) one history; a segment that times out says nothing about the code (a stalled
     namespace set-up under load, ...), so the whole history is started afresh, at most twice more"""
     for attempt in range(3):
-        root, results = _run_history_once(ctx, binary, hist, keys, idx, strace, variant, predir)
+        root, results = _run_history_once(ctx, binary, hist, keys, idx, strace, variant, predir, chown_fails)
         if not any(r.get("timeout") for r in results):
             break
         ctx.notes.append("history %d attempt %d timed out: %s" % (idx, attempt, [r.get("error") for r in results if r.get("timeout")][:1]))
     return root, results
 
 
-def _run_history_once(ctx, binary, hist, keys, idx, strace, variant, predir):
+def _run_history_once(ctx, binary, hist, keys, idx, strace, variant, predir, chown_fails=False):
     root = os.path.join(ctx.scratch, "h%04d" % idx)
     shutil.rmtree(root, ignore_errors=True)
     os.makedirs(os.path.join(root, "bin"))
@@ -200,6 +200,9 @@ def _run_history_once(ctx, binary, hist, keys, idx, strace, variant, predir):
     open(os.path.join(root, "console.log"), "w").close()
     env = dict(os.environ)
     env["C12_SCRATCH"] = root
+    if chown_fails:
+        # the agent runs without CAP_CHOWN: chown(<key dir owned by uid 1000>, 0, 0) is refused (EPERM)
+        env["C12_DROP_CHOWN"] = "1"
     results = []
     first_poll = 0
     for si, seg in enumerate(segments(hist)):
@@ -468,10 +471,12 @@ def coq_variant(v):
     return "{| fix_hex := %s; fix_body := %s |}" % (cbool(v[0]), cbool(v[1]))
 
 
-def model_eval(ctx, variant, hists, name="cases", predirs=None):
+def model_eval(ctx, variant, hists, name="cases", predirs=None, chown_oks=None):
     predirs = predirs or [False] * len(hists)
-    exprs = ["(vector (run %s %s), map sys_code (sys_trace %s %s %s))" % (coq_variant(variant), coq_history(h), coq_variant(variant), cbool(pd), coq_history(h))
-             for h, pd in zip(hists, predirs)]
+    chown_oks = chown_oks or [True] * len(hists)
+    exprs = ["(vector (run_env %s %s %s %s), map sys_code (sys_trace %s %s %s %s))" % (
+                coq_variant(variant), cbool(pd), cbool(co), coq_history(h), coq_variant(variant), cbool(pd), cbool(co), coq_history(h))
+             for h, pd, co in zip(hists, predirs, chown_oks)]
     res = vplib.coq_eval(ctx, REQ, exprs, shard=25, name=name)
     out = []
     for vec, tr in res:
@@ -497,9 +502,9 @@ def trace_codes(ev):
     return out
 
 
-def prop_trace(ev, predir=False):
-    """the property's second sentence on an observed syscall trace: the key directory is root-owned
-    and 0700 (and nothing undid that) before anything is created in it"""
+def prop_trace(ev, predir=False, chown_ok=True):
+    """the property's second sentence on an observed syscall trace: the key directory is 0700 -- and, where
+    the environment lets chown succeed, root-owned -- (and nothing undid that) before anything is created in it"""
     chowned, mode = False, (0o755 if predir else None)
     for name, arg in ev:
         if name == "mkdir":
@@ -511,7 +516,7 @@ def prop_trace(ev, predir=False):
         elif name == "create":
             if mode != 0o700:
                 return "a file was created in the key directory while its mode was %s, not 0700" % (oct(mode) if mode is not None else "unset")
-            if not chowned:
+            if chown_ok and not chowned:
                 return "a file was created in the key directory before it was chown'ed to root:root"
     return None
 
@@ -646,12 +651,17 @@ def run(ctx):
     canaries = [make_canaries(rng, h) for h in hists]
     predirs = [False] * (2 + len(FIXED_CASES)) + [rng.random() < 0.3 for _ in range(n_random)]
     predirs[3] = True
+    # environment fault: chown is refused (only meaningful on a directory somebody else owns)
+    chown_fails = [pd and rng.random() < 0.4 for pd in predirs]
+    predirs[4] = True
+    chown_fails[4] = True
     variants = [rng.randrange(4) for _ in hists]
     straced = set(range(len(FIXED_CASES) + 2)) | set(rng.sample(range(len(hists)), min(n_strace, len(hists))))
+    straced |= {i for i, c in enumerate(chown_fails) if c}
 
     # ---------------- implementation ----------------
     def one(i):
-        root, res = run_history(ctx, binary, hists[i], canaries[i], i, strace=(i in straced), variant=variants[i], predir=predirs[i])
+        root, res = run_history(ctx, binary, hists[i], canaries[i], i, strace=(i in straced), variant=variants[i], predir=predirs[i], chown_fails=chown_fails[i])
         hexness = key_ids(hists[i])
         obs, det, nfiles = scan(root, res, canaries[i], hexness)
         tr = keydir_trace(root) if i in straced else None
@@ -673,7 +683,7 @@ def run(ctx):
     variant = (True, True)
 
     # ---------------- model ----------------
-    model = model_eval(ctx, variant, hists, predirs=predirs)
+    model = model_eval(ctx, variant, hists, predirs=predirs, chown_oks=[not c for c in chown_fails])
 
     # ---------------- compare + the property on the implementation's behaviour ----------------
     known = {f.get("class") for f in vplib.known_findings("C12")}
@@ -682,7 +692,7 @@ def run(ctx):
     for i, h in enumerate(hists):
         im, (mvec, mtr) = impl[i], model[i]
         case = {"index": i, "history": hist_json(h), "keys": {str(k): v for k, v in canaries[i].items()}, "body_variant": variants[i],
-                "key_dir_preexists": predirs[i]}
+                "key_dir_preexists": predirs[i], "chown_refused": chown_fails[i]}
         if not im["ok"]:
             disagreements.append({"case": case, "model": "history runs to completion", "impl": "driver error: %s" % im["error"]})
             continue
@@ -694,7 +704,7 @@ def run(ctx):
         if im["trace"] is not None:
             if trace_codes(im["trace"]) != mtr:
                 disagreements.append({"case": case, "model": mtr, "impl": trace_codes(im["trace"]), "what": "key directory syscall order"})
-            why = prop_trace(im["trace"], predirs[i])
+            why = prop_trace(im["trace"], predirs[i], not chown_fails[i])
             if why:
                 failures.append({"case": case, "why": why, "impl": im["trace"]})
             if im["outside"]:
@@ -749,7 +759,7 @@ def run(ctx):
             "malformed_key_bodies": sum(len(malformed_kids(h)) for h in hists),
             "attest_failures": sum(1 for h in hists for o in h if o[0] == "poll" and o[3] == "err"),
             "histories_with_any_leak": sum(1 for im in impl if any(im["obs"][s] for s in SINKS if s not in ALLOWED)),
-            "key_dir_preexisting": sum(1 for p in predirs if p), "decoy_canaries": sum(1 for c in canaries for k in c if k >= DECOY0),
+            "key_dir_preexisting": sum(1 for p in predirs if p), "chown_refused": sum(1 for c in chown_fails if c), "decoy_canaries": sum(1 for c in canaries for k in c if k >= DECOY0),
         },
     })
     ctx.assumptions += [
